@@ -224,10 +224,40 @@ Definition hash_groups2 (m : mode) (gcols : list nat) (aggs : list aggf) (rows :
   fold_left (fun gs r => gupdate (group_key gcols r) (aggs_update2 m aggs r) (aggs_init2 aggs) gs) rows [].
 Definition group_row2 (tys : list ltype) (g : group2) : row :=
   map keypart_value (fst g) ++ final_row tys (snd g).
-Definition hash_agg2 (m : mode) (gcols : list nat) (aggs : list aggf) (tys : list ltype) (cs : list chunk)
-  : res (list row) :=
+
+(** [ValueVector::set_null] allocates the validity bitmap with the length the vector has at the
+    FIRST null and no push ever extends it: a later NULL pushed into a TYPED vector is not recorded
+    and reads back as the default value of the type (a vector of type Any stores the NULL itself).
+    The aggregate results of one output chunk (2048 groups) go through one vector per column. *)
+Definition default_of (t : ltype) : value :=
+  match t with TAny => VNull | TInt => VInt 0 | TFloat => VFloat 0 | TBool => VBool false | TStr => VStr [] end.
+Fixpoint lossy_rows (tys : list ltype) (cnt : Z) (seen : list bool) (rows : list row) : list row :=
+  match rows with
+  | [] => []
+  | r :: t =>
+      let seen0 := if cnt =? 2048 then map (fun _ => false) tys else seen in
+      let cnt0 := if cnt =? 2048 then 0 else cnt in
+      let cells := combine (combine tys seen0) r in
+      let out := map (fun c : ltype * bool * value =>
+                        match snd c with
+                        | VNull => if snd (fst c) then default_of (fst (fst c)) else VNull
+                        | v => v
+                        end) cells in
+      let seen' := map (fun c : ltype * bool * value => match snd c with VNull => true | _ => snd (fst c) end) cells in
+      out :: lossy_rows tys (cnt0 + 1) seen' t
+  end.
+(** rows of the operator: key values (vectors of type Any) ++ aggregate results *)
+Definition hash_agg2_rows (lossy : bool) (tys : list ltype) (gs : list group2) : list row :=
+  let aggpart := map (fun g => final_row tys (snd g)) gs in
+  let aggpart := if lossy then lossy_rows tys 0 (map (fun _ => false) tys) aggpart else aggpart in
+  map (fun p => map keypart_value (fst (fst p)) ++ snd p) (combine gs aggpart).
+Definition hash_agg2_v (lossy : bool) (m : mode) (gcols : list nat) (aggs : list aggf) (tys : list ltype)
+           (cs : list chunk) : res (list row) :=
   let gs := hash_groups2 m gcols aggs (rows_of cs) in
-  if existsb (fun g => existsb st_panic (snd g)) gs then Panic else Ok (map (group_row2 tys) gs).
+  if existsb (fun g => existsb st_panic (snd g)) gs then Panic else Ok (hash_agg2_rows lossy tys gs).
+(** the code as it is / with the PROPOSED repair proposed-fixes/C11-vector-validity.diff (finding C11-K11) *)
+Definition hash_agg2 := hash_agg2_v true.
+Definition hash_agg2_fix := hash_agg2_v false.
 
 (** the types the planner ([plan_aggregate]) gives the result vectors *)
 Definition planner_type (f : aggf) : ltype :=
